@@ -18,7 +18,7 @@ from harness import wscheck, wsh
 from harness.core import Ctx
 
 ID = "C12"
-LEAN_MODULES = ["GeoVerif.Props.C12", "GeoVerif.Props.C06"]
+LEAN_MODULES = ["GeoVerif.Props.C12", "GeoVerif.Props.C06", "GeoVerif.Props.C12Heap"]
 THEOREMS = [
     "GeoVerif.Ws.renameEnt_same",
     "GeoVerif.Ws.renameEnt_pgs",
@@ -28,6 +28,12 @@ THEOREMS = [
     "GeoVerif.Ws.edit_copy_frame",
     "GeoVerif.Ws.insert_frame",
     "GeoVerif.Ws.copy_fresh",
+    "GeoVerif.Heap.edit_frame",
+    "GeoVerif.Heap.aliasFree_sound",
+    "GeoVerif.Heap.copy_edit_frame",
+    "GeoVerif.Heap.copy_edits_frame",
+    "GeoVerif.Heap.deepCopy_correct",
+    "GeoVerif.Heap.aliasCopy_counterexample",
 ]
 RULE = (
     "copy-biased histories (copies of data, objects with children and property groups, nested groups, into the same parent or "
@@ -44,11 +50,17 @@ LEVEL_TEXT = (
     "Lean theorems: the copy reproduces the source subtree entity by entity with class, type, name, flags, attribute and array "
     "tokens unchanged and identifiers renamed, property groups referencing the renamed children (copy_subtree, renameEnt_same, "
     "renameEnt_pgs, copy_size), with fresh identifiers (copy_fresh); every stored node other than the receiving parent's is "
-    "unchanged by the copy (copy_frame/insert_frame) and by later edits of the copy (edit_copy_frame). Tied to the code by "
-    "differential histories and a reflective class sweep with aliasing probes."
+    "unchanged by the copy (copy_frame/insert_frame) and by later edits of the copy (edit_copy_frame). Aliasing (heap model M10): "
+    "when a copy shares no mutable container with its source, no sequence of in-place edits of the copy's containers changes "
+    "anything the source shows (copy_edits_frame, for every heap and entity); a deep copy shows what the source shows, leaves the "
+    "source as it was and is alias free (deepCopy_correct); handing the same containers over is refuted as a copy "
+    "(aliasCopy_counterexample). The hypothesis aliasFree is evaluated by Lean on the identities of every mutable container "
+    "(dictionaries and lists recursively, arrays, colour maps, value maps, also of the children and of their types) of each real "
+    "source/copy pair of the class sweep. Tied to the code by differential histories and a reflective class sweep (every object and "
+    "group class incl. Drillhole with logs, locked data, referenced data with colour and value maps) with in-place edit probes."
 )
-LEVEL_NOTE = "Trusted: Lean kernel, harness, NumPy/h5py. Aliasing of Python objects (shared dict/array) is not expressible in the token model; it is probed on the real objects."
-TECHNIQUE = "Lean 4 proof (mapEnts/insert on the tree model) + differential copy histories + reflective class sweep with aliasing probes"
+LEVEL_NOTE = "Trusted: Lean kernel, harness (container discovery by reflection over private attributes, Python object identities), NumPy/h5py. The heap model knows containers, not views: two NumPy arrays that are different objects over one buffer would pass aliasFree; the in-place edit probes cover that case."
+TECHNIQUE = "Lean 4 proof (mapEnts/insert on the tree model; frame theorem for in-place edits on a heap model with Lean-evaluated aliasFree on real object identities) + differential copy histories + reflective class sweep with aliasing probes"
 WANT = {"C12"}
 WEIGHTS = {"copy": 10, "add_data": 8, "pg_add": 5, "create_object": 6, "create_group": 4, "move": 1, "remove_ws": 1,
            "remove_parent": 1, "rename": 1, "flag": 1}
@@ -108,7 +120,8 @@ def shared_mutables(src, cp):
         for k, v in vars(b).items():
             if k in ("_children", "_property_groups", "_parent", "_workspace", "_entity_type"):
                 continue
-            if mutable(v) and k in vars(a) and vars(a)[k] is v and (not isinstance(v, (list, np.ndarray)) or len(v)):
+            if mutable(v) and k in vars(a) and vars(a)[k] is v and (not isinstance(v, list) or v) \
+                    and (not isinstance(v, np.ndarray) or v.size):
                 out.append(f"{label}.{k} ({type(v).__name__})")
         ta, tb = getattr(a, "entity_type", None), getattr(b, "entity_type", None)
         if ta is not None and tb is not None and ta is not tb:
@@ -124,6 +137,51 @@ def shared_mutables(src, cp):
             if a.name == b.name and type(a) is type(b):
                 pair(a, b, type(b).__name__)
     return sorted(set(out))
+
+
+def containers(ent, include_type):
+    """`path -> identity` of every mutable container reachable from the private attributes of an entity (dictionaries and
+    lists, recursively; arrays; colour maps; value maps), of its data children and - when asked - of their types: the `Obj`
+    of model M10 (`Model/Heap.lean`)."""
+    from geoh5py.shared.entity import Entity
+    out = []
+
+    def mutable(v):
+        return isinstance(v, (dict, list, np.ndarray)) or type(v).__name__ in ("ColorMap", "ReferenceValueMap")
+
+    def walk(v, path, depth=0):
+        if not mutable(v) or depth > 4:
+            return
+        if (isinstance(v, list) and not v) or (isinstance(v, np.ndarray) and v.size == 0):
+            return
+        out.append([path, id(v)])
+        if isinstance(v, dict):
+            for k, x in v.items():
+                walk(x, f"{path}[{k!r}]", depth + 1)
+        elif isinstance(v, list):
+            for i, x in enumerate(v):
+                walk(x, f"{path}[{i}]", depth + 1)
+        elif type(v).__name__ in ("ColorMap", "ReferenceValueMap"):
+            for k, x in vars(v).items():
+                if k != "_parent":
+                    walk(x, f"{path}.{k}", depth + 1)
+
+    def one(e, label):
+        for k, v in vars(e).items():
+            if k in ("_children", "_property_groups", "_parent", "_workspace", "_entity_type", "_visual_parameters", "_depths"):
+                continue
+            walk(v, f"{label}.{k}")
+        t = getattr(e, "entity_type", None)
+        if include_type and t is not None:
+            for k, v in vars(t).items():
+                if k not in ("_workspace",):
+                    walk(v, f"type-of-{label}.{k}")
+
+    one(ent, type(ent).__name__)
+    for c in getattr(ent, "children", []) or []:
+        if isinstance(c, Entity):
+            one(c, f"{type(c).__name__}:{c.name}")
+    return out
 
 
 def class_sweep(ctx):
@@ -147,6 +205,7 @@ def class_sweep(ctx):
                     continue
                 classes.append((name, c))
     skipped = []
+    heap_jobs = []
     p1, p2 = ctx.scratch / "c12_a.geoh5", ctx.scratch / "c12_b.geoh5"
     for name, cls in classes:
         for target in ("same", "group", "other_ws"):
@@ -194,6 +253,8 @@ def class_sweep(ctx):
                                 d = src.add_data({"d": {"values": np.arange(nval, dtype=float),
                                                         "association": "VERTEX" if getattr(src, "n_vertices", None) else "CELL"}})
                                 src.add_data_to_group(d, "pg")
+                                if target != "same":
+                                    d.modifiable = False          # a locked data set is copied like any other
                                 r = src.add_data({"ref": {"values": (np.arange(nval) % 2 + 1).astype("int32"), "type": "REFERENCED",
                                                           "value_map": {1: "A", 2: "B"},
                                                           "association": "VERTEX" if getattr(src, "n_vertices", None) else "CELL"}})
@@ -221,7 +282,9 @@ def class_sweep(ctx):
                             ctx.fail(case, "copy into another workspace did not keep the free identifier", "C12:other-workspace-identifier-not-kept")
                         if target != "other_ws" and cp.uid == src.uid:
                             ctx.fail(case, "copy into the same workspace kept the identifier", "C12:same-workspace-identifier-kept")
-                        # ---- no mutable object may be reachable from both the source and the copy
+                        # ---- no mutable object may be reachable from both the source and the copy: the identities of the real
+                        #      containers are judged by Lean's `aliasFree` (the hypothesis of copy_edits_frame)
+                        heap_jobs.append((dict(case), containers(src, target == "other_ws"), containers(cp, target == "other_ws")))
                         for what in shared_mutables(src, cp):
                             ctx.fail(case, f"{name} copy ({target}, copy_children={cc}) shares the mutable object {what} with its source",
                                      "C12:shares-mutable-object:" + what.split(" ")[0])
@@ -262,6 +325,15 @@ def class_sweep(ctx):
     for p in (p1, p2):
         if p.exists():
             os.remove(p)
+    if heap_jobs:
+        outs = ctx.driver.run([{"m": "heap", "op": "aliasFree", "o": o, "cp": c} for _, o, c in heap_jobs])
+        for (case_, o, c), out in zip(heap_jobs, outs):
+            ctx.count("copies_judged_by_lean_aliasFree")
+            ctx.count("containers_compared", len(o) + len(c))
+            if out is not True:
+                shared = sorted({p for p, i in c if i in {j for _, j in o}})
+                ctx.fail(case_, f"copy shares mutable containers with its source (aliasFree = false): {shared[:4]}",
+                         "C12:shares-mutable-object:" + (shared[0].split(" ")[0] if shared else "unknown"))
     ctx.extra["sweep_classes"] = [n for n, _ in classes]
     ctx.extra["sweep_skipped"] = sorted(set(skipped))
 
